@@ -282,15 +282,19 @@ Section Repo.
       end
     end.
 
+  (* the trees check_repository is handed: Repository::check takes the root of EVERY snapshot file
+     (get_all_snapshots; regenerated from repository.rs); were snapshots filtered, the model could
+     not know which, so it would walk none *)
+  Definition checked_roots : list id := if x_check_covers_all_snapshots then st_roots st else [].
   Definition walk_roots (fuel : nat) : option (list err * list id) :=
     fold_right (fun r acc =>
       match acc, walk fuel r with
       | Some (es, ps), Some (e1, p1) => Some (e1 ++ es, p1 ++ ps)
-      | _, _ => None end) (Some ([], [])) (st_roots st).
+      | _, _ => None end) (Some ([], [])) checked_roots.
   (* the packs holding the snapshots' root trees are put into the set first (fix of the finding
      "root-tree-pack-replaced-same-layout": before it, root-only tree packs were never read) *)
   Definition root_packs : list id :=
-    flat_map (fun r => match lookup BTree r with Some (p, _) => [p] | None => [] end) (st_roots st).
+    flat_map (fun r => match lookup BTree r with Some (p, _) => [p] | None => [] end) checked_roots.
   Definition check_trees (fuel : nat) : option (list err * list id) :=
     match walk_roots fuel with
     | Some (es, ps) => Some (es, root_packs ++ ps)
